@@ -1,15 +1,31 @@
+-- Root of the `Blots` library: the executable model, the generated tables and the driver
+-- handlers.  The property modules `Blots.Props.Cxx` (and the lemma files they import) are
+-- separate build targets: `lake build Blots.Props.C01 …` (see setup.sh and ./check); they
+-- are not imported here so that independently written lemma files need not share a
+-- namespace discipline.
 import Blots.Model.Basic
 import Blots.Model.Num
 import Blots.Model.Syntax
 import Blots.Model.Value
 import Blots.Model.Outcome
 import Blots.Model.Data
+import Blots.Model.Print
+import Blots.Model.Format
+import Blots.Model.Pratt
+import Blots.Model.Display
+import Blots.Model.NumText
+import Blots.Model.Units
+import Blots.Model.Json
+import Blots.Model.Cli
+import Blots.Model.Builtins
+import Blots.Model.Eval
 import Blots.Gen.Prec
 import Blots.Gen.Builtins
 import Blots.Gen.Reserved
-import Blots.Props.C12
-import Blots.Props.C17
-import Blots.Props.C16
-import Blots.Props.C20
-import Blots.Props.C06
-import Blots.Props.C19
+import Blots.Gen.Units
+import Blots.Drv.Core
+import Blots.Drv.Print
+import Blots.Drv.Eval
+import Blots.Drv.NumText
+import Blots.Drv.Units
+import Blots.Drv.Json
